@@ -83,8 +83,8 @@ def run(run, replay=None):
     nsp = 0
     for cn in canon:
         sp = sorted(table[cn])
-        if quick and len(sp) > 4:
-            sp = [sp[0]] + rng.sample(sp[1:], 3)
+        if quick and len(sp) > 4 and cn not in ('utf-16', 'utf-32', 'utf-8-sig', 'utf-8'):
+            sp = [sp[0]] + rng.sample(sp[1:], 3)        # BOM-emitting codecs: always every spelling
         for name in sp:
             nsp += 1
             desc = cat.desc(name)
